@@ -49,28 +49,23 @@ impl Scope {
     pub(crate) fn height(&self) -> i32 {
         match self {
             Self::Top => 0,
-            Self::Bind(weak) => {
-                let strong = weak.upgrade().unwrap();
-                strong.height()
-            }
+            // A bind that has been dropped can never run again, so it no longer constrains
+            // the height of the (by now invalid or unusable) nodes it created.
+            Self::Bind(weak) => weak.upgrade().map_or(0, |strong| strong.height()),
         }
     }
     pub(crate) fn is_valid(&self) -> bool {
         match self {
             Self::Top => true,
-            Self::Bind(weak) => {
-                let strong = weak.upgrade().unwrap();
-                strong.is_valid()
-            }
+            Self::Bind(weak) => weak.upgrade().map_or(false, |strong| strong.is_valid()),
         }
     }
     pub(crate) fn is_necessary(&self) -> bool {
         match self {
             Self::Top => true,
-            Self::Bind(weak) => {
-                let strong = weak.upgrade().unwrap();
-                strong.is_necessary()
-            }
+            Self::Bind(weak) => weak
+                .upgrade()
+                .map_or(false, |strong| strong.is_necessary()),
         }
     }
     pub(crate) fn add_node(&self, node: NodeRef) {
